@@ -69,7 +69,7 @@ SRC_SCOPE = {'theories/Gen/Src': ['C02', 'C06', 'C08', 'C09', 'C13', 'C15', 'C19
              'theories/SrcTie_pt': ['C09'], 'theories/SrcTie_chain': ['C08'], 'theories/Gen/SrcNum': ['C01', 'C03'], 'theories/SrcTie_mh': ['C01'],
              'theories/SrcTie_swap': ['C03'], 'theories/SrcSupport': ['C01', 'C03', 'C20'], 'theories/Gen/SrcAdapt': ['C13', 'C14'], 'theories/SrcTie_ss': ['C13', 'C14'],
              'theories/SrcTie_adapt': ['C13'], 'theories/Gen/SrcLadder': ['C17'], 'theories/SrcTie_ladder': ['C17'], 'theories/Gen/SrcCalls': ['C18'], 'theories/Gen/SrcRng': ['C04'], 'theories/Gen/SrcH5': ['C20'], 'theories/SrcTie_h5': ['C20'],
-             'theories/Gen/SrcState': ['C05', 'C16', 'C19'], 'theories/SrcTie_state': ['C05'], 'theories/SrcTie_reset': ['C19'],
+             'theories/Gen/SrcState': ['C05', 'C07', 'C16', 'C19'], 'theories/SrcTie_state': ['C05'], 'theories/SrcTie_reset': ['C19'],
              'theories/Gen/SrcJump': ['C02', 'C11', 'C12'], 'theories/SrcTie_jump': ['C02', 'C11', 'C12']}
 
 
